@@ -152,6 +152,8 @@ def run_family(prop, tier, seed, budget, profile, n_workloads, max_points, batch
                         'crash-class:' + cname, 'in-flight:' + str(info.get('inflight'))]
                 if info.get('inflight') == 'batch':
                     trig.append('crash-inside-batch')
+                if 'batch' in s:
+                    trig.append('uring-subset')     # the crash applied an arbitrary subset of the io_uring batch's independent writes
                 if triggers_of:
                     trig += triggers_of(f, t, res)
                 rep.add_violation(Violation(f['prop'], f['cls'], f['detail'], trig,
